@@ -336,3 +336,68 @@ def newton_derivative(prog, func):
         vv = eval_free(prog, func.module, func, ve)
         outs.append(eq(vv, uu.deriv("v_" + x), "%s == d %s / d %s" % (v, u, x)))
     return all_of(*outs)
+
+
+# ------------------------------------------------------------------------------------------ tolerance gates -> angle bands
+def collect_gates(run):
+    """run(oracle) interprets a function; every np.isclose/np.allclose condition met on the generic arm (answered False) is returned
+    as (lhs Rat, rhs Rat, rtol, atol)"""
+    gates = []
+
+    def oracle(c, it=None):
+        if c.op in ("isclose", "allclose"):
+            tol = c.text if isinstance(c.text, tuple) and c.text and c.text[0] == "tol" else ("tol", 1e-5, 1e-8)
+            gates.append((c.lhs, c.rhs, tol[1], tol[2]))
+            return False
+        if c.op == ">":
+            return True
+        if c.op == ">=":
+            return False
+        if c.op == "nonzero":
+            return True
+        return None
+    run(oracle)
+    return gates
+
+
+def gate_angle_band(lhs, rhs, rtol, atol, qnames):
+    """For a gate |lhs - rhs| <= atol + rtol |rhs| whose operands are functions of a unit quaternion (symbols qnames = w, x, y, z):
+    which limit closes it (rotation angle -> 0 or -> pi) and the largest angular distance from that limit still inside the gate.
+    Decided on the closed forms: the residual is sampled along  q(s) -> limit  and fitted to  k * s^p  (exact for the monomial residuals
+    such gates have: trace +- const = 4 w^2, 4 (1 - w^2); scalar part = w; ...).  Returns (limit, band_rad, p, k) or None."""
+    c = rhs.const() if hasattr(rhs, "const") else None
+    if c is None or rtol is None or atol is None:
+        return None
+    tol = atol + rtol * abs(float(c))
+    ax = (0.36, 0.48, 0.8)          # a fixed generic unit axis
+
+    def resid(limit, s):
+        # half-turn limit: w = s -> 0 ; identity limit: |vector part| = s -> 0
+        if limit == "pi":
+            w, v = s, _math.sqrt(1 - s * s)
+        else:
+            w, v = _math.sqrt(1 - s * s), s
+        vals = {qnames[0]: w, qnames[1]: v * ax[0], qnames[2]: v * ax[1], qnames[3]: v * ax[2]}
+
+        def val(at):
+            if at.name in vals:
+                return vals[at.name]
+            raise KeyError(at.name)
+        return abs(P.evalf(lhs - rhs, val))
+    for limit in ("pi", "0"):
+        try:
+            f1, f2, f3 = resid(limit, 1e-2), resid(limit, 1e-3), resid(limit, 1e-4)
+        except KeyError:
+            return "foreign"
+        if not (f1 > f2 > f3 >= 0) or f3 > 1e-3:
+            continue
+        if f3 == 0 or f2 == 0:
+            return (limit, 0.0, None, None)
+        p = _math.log(f2 / f3) / _math.log(10.0)
+        p_r = round(p)
+        if p_r < 1 or abs(p - p_r) > 0.05:
+            continue
+        k = f3 / (1e-4 ** p_r)
+        s_band = (tol / k) ** (1.0 / p_r)
+        return (limit, 2 * _math.asin(min(1.0, s_band)), p_r, k)
+    return None
